@@ -1,36 +1,41 @@
 """Fail-closed Python-ast -> Gallina translator for kawin/precipitation/parameters/ShapeFactors.py (C15).
 
+The translator works on a NORMALISED form of the source: every method it reads is executed symbolically
+(single-assignment temporaries are substituted, locals may have any name, tuple assignments, augmented
+assignments, conditional expressions, private helper methods are inlined, module-level numeric constants
+are substituted) into an expression over the method's inputs, and that expression is what is emitted.
 Anything outside the accepted subset raises TranslationError, which the check reports as a broken tie.
 
 What is translated:
   * the four shape descriptions (Sphere, Needle, Plate, Cuboidal): `_eqRadius`, `_normalRadii`,
-    `_kineticFactor`, `_thermoFactor` and every helper reached through `self.<helper>(x)` (here:
-    `eccentricity`), resolved along the single-inheritance MRO, as real functions of the aspect ratio
-    (`_normalRadii`: a triple of reals, one row of the n x 3 array);
+    `_kineticFactor`, `_thermoFactor` and `eccentricity`, resolved along the single-inheritance MRO, as
+    real functions of the aspect ratio (`_normalRadii`: a triple of reals, one row of the n x 3 array);
   * the constructors: `__init__` of every description is executed symbolically (super().__init__(),
     `self.<x>Min = <expr>`); a call of a PUBLIC wrapper inside a constructor is translated as that
     wrapper applied to the value the `...Min` attribute holds AT THAT POINT of the constructor;
-  * `_processAspectRatio` (accepted shapes: the in-place `ar[ar < c] = v; return ar` and the copying
-    `return np.where(ar < c, v, ar)`; which of the two is emitted as `processAspectRatio_inplace_gen`),
-    the mask idiom of the public wrappers `eqRadiusFactor / kineticFactor / thermoFactor`
-    (`factor = self.<x>Min * np.ones(ar.shape); factor[ar > c] = self._<x>(ar[ar > c])`) with the
-    comparison and constant read from the source, and `normalRadii`;
+  * `_processAspectRatio` and the public wrappers `eqRadiusFactor / kineticFactor / thermoFactor / normalRadii`
+    as elementwise array programs: np.atleast_1d / np.squeeze are the identity on elements,
+    `c * np.ones(x.shape)` and `np.full(x.shape, c, dtype=np.float64)` are the constant c, `m = x > c` is a mask,
+    `y[m] = f(x[m])` is  if m then f x else y,  `np.where(m, a, b)` is  if m then a else b,  np.maximum /
+    np.minimum are Rmax / Rmin.  A masked assignment INTO THE ARGUMENT (or np.atleast_1d of it) is recorded as
+    `processAspectRatio_inplace_gen = true`;
   * ShapeFactor: the four compositions with `self.aspectRatio`, `_scalarAspectRatioEquation`,
-    the dispatch of `setAspectRatio`, `_findRcritScalar`, and the bisection `_findRcrit`, whose
-    statement skeleton is pinned (initialisation, `while np.abs(fMid) > self.tol`, the two-branch
-    update, the midpoint/objective recomputation, `n += 1; if n == N: return ...`, `return midR`) while
-    its expressions, comparison operators, constants and returned names are read from the source
-    and emitted over the scalar record `Ops` (reals for the theorems, binary64 for the trace check).
+    the dispatch of `setAspectRatio`, `_findRcritScalar`, and the bisection `_findRcrit`:
+    the statements before the loop, the loop (`while <test>: ...; n += 1; if n == N: return g`  or
+    `for _ in range(N): if not <test>: return f; ...` followed by `return g`) and its body are executed
+    symbolically over the scalar record `Ops`; the loop-carried variables are mapped onto the six fields of the
+    model's state by their ROLE in the normalised update (which one is tested, returned, replaced by the
+    midpoint in which branch), not by their names or order.
 
 numpy -> Reals: np.pi -> PI, np.sqrt -> sqrt, np.exp -> exp, np.log -> ln, np.arcsin -> asin,
 np.arccos -> acos, np.cbrt -> cbrt (= Rpower x (1/3), positive arguments), `x ** n` (n a non-negative
-integer literal) -> x ^ n, `x ** (p / q)` (integer literals) -> Rpower x (p / q),
-np.ones(x.shape) -> 1, np.ones((len(x), 3)) -> (1, 1, 1), np.array([a, b, c]).T -> (a, b, c),
-scalar * triple -> componentwise product, int literals -> integers, float literals -> the exact
-decimal that was written.  Formula methods are assumed to act elementwise on arrays (validated on
-every run by the pointwise enclosures of the check, scalar and array calls).
+integer literal) -> x ^ n, `x ** (p / q)` (integer literals) -> Rpower x (p / q), np.ones((len(x), 3)) -> (1, 1, 1),
+np.array([a, b, c]).T -> (a, b, c), scalar * triple -> componentwise product, int literals -> integers, float
+literals -> the exact decimal that was written.  Formula methods are assumed to act elementwise on arrays
+(validated on every run by the pointwise enclosures of the check, scalar and array calls).
+np.full WITHOUT dtype=np.float64 and np.full_like are rejected (their dtype follows the data).
 """
-import ast, hashlib
+import ast, copy, hashlib
 from fractions import Fraction
 from decimal import Decimal
 
@@ -48,15 +53,16 @@ BASE = 'ShapeDescriptionBase'
 SHORT = {c: s for s, c in DESCRIPTIONS}
 SHORT[BASE] = 'Base'
 FORMULAS = ['_eqRadius', '_normalRadii', '_kineticFactor', '_thermoFactor']
-# public wrapper -> (Min attribute, raw formula)
 WRAPPERS = {'eqRadiusFactor': ('eqRadiusFactorMin', '_eqRadius'),
             'kineticFactor': ('kineticFactorMin', '_kineticFactor'),
             'thermoFactor': ('thermoFactorMin', '_thermoFactor')}
 MINS = ['eqRadiusFactorMin', 'kineticFactorMin', 'thermoFactorMin']
 NPFUN = {'sqrt': 'sqrt', 'exp': 'exp', 'log': 'ln', 'arcsin': 'asin', 'arccos': 'acos', 'cbrt': 'cbrt'}
-CMP = {ast.Lt: 'Rlt_dec', ast.LtE: 'Rle_dec', ast.Gt: 'Rgt_dec', ast.GtE: 'Rge_dec'}
 RESERVED = {'R', 'PI', 'sqrt', 'exp', 'ln', 'asin', 'acos', 'cbrt', 'fix', 'let', 'in', 'fun', 'match', 'end',
-            'if', 'then', 'else', 'T', 'O', 'beta', 'delta', 'iota', 'zeta', 'eta', 'two', 'tol'}
+            'if', 'then', 'else', 'T', 'O', 'beta', 'delta', 'iota', 'zeta', 'eta', 'two', 'tol', 's', 'f', 'fmin'}
+# names the description / ShapeFactor contexts treat as entities (never inlined)
+KNOWN_DESCR = set(FORMULAS) | set(WRAPPERS) | {'normalRadii', '_processAspectRatio', 'eccentricity'}
+KNOWN_SF = {'thermoFactor', 'eqRadiusFactor', 'kineticFactor', 'normalRadii', 'aspectRatio'}
 
 
 def _frac(v, node):
@@ -67,13 +73,6 @@ def _frac(v, node):
     if v != v or v in (float('inf'), float('-inf')):
         raise TranslationError('non-finite literal', node)
     return Fraction(Decimal(repr(v)))
-
-
-def _num(v, node):
-    fr = _frac(v, node)
-    if fr.denominator == 1:
-        return '%d' % fr.numerator if fr.numerator >= 0 else '(%d)' % fr.numerator
-    return '(%d / %d)' % (fr.numerator, fr.denominator)
 
 
 def _ident(n):
@@ -99,6 +98,8 @@ def _same(node, template_src):
     return ast.dump(node) == ast.dump(t)
 
 
+# ==========================================================================================
+# class table
 class _Classes:
     def __init__(self, mod):
         self.cls = {}
@@ -157,112 +158,522 @@ def _params(fn, n=None):
     return ps
 
 
-class _Formula:
-    """one straight-line formula over the reals for one concrete class; values are 'R' or 'triple'"""
+# ==========================================================================================
+# inlining of private helper methods (AST level)
+class _Rename(ast.NodeTransformer):
+    def __init__(self, prefix):
+        self.prefix = prefix
 
-    def __init__(self, tr, cname, mins=None, funparams=None):
-        self.tr, self.cname = tr, cname
-        self.mins = mins            # constructor context: attribute -> current Coq text
-        self.funparams = funparams  # self.<name>(x) calls that become function parameters (in order of use)
+    def visit_Name(self, node):
+        if node.id in ('np', 'self', 'len', 'range', 'super'):
+            return node
+        return ast.copy_location(ast.Name(id=self.prefix + node.id, ctx=node.ctx), node)
 
-    def num(self, e, env):
-        txt, ty = self.expr(e, env)
-        if ty != 'R':
-            raise TranslationError('array-valued expression where a number is needed', e)
-        return txt
+
+class _Subst(ast.NodeTransformer):
+    def __init__(self, m):
+        self.m = m
+
+    def visit_Name(self, node):
+        if node.id in self.m and isinstance(node.ctx, ast.Load):
+            return copy.deepcopy(self.m[node.id])
+        return node
+
+
+class _Inliner:
+    """replaces calls self.<helper>(...) of methods that are not entities of the context by the helper's body"""
+
+    def __init__(self, C, cname, known):
+        self.C, self.cname, self.known = C, cname, known
+        self.counter = 0
+
+    def helper(self, call):
+        if not (isinstance(call, ast.Call) and _is_self_attr(call.func) and call.func.attr not in self.known):
+            return None
+        dc, fn = self.C.find(self.cname, call.func.attr, required=False)
+        if fn is None:
+            return None
+        if call.keywords:
+            raise TranslationError('keyword arguments in a call of the helper %s' % fn.name, call)
+        ps = _params(fn)
+        if len(ps) != len(call.args):
+            raise TranslationError('helper %s called with %d arguments' % (fn.name, len(call.args)), call)
+        return fn, ps
+
+    def expr(self, e, depth=0):
+        """expression-level inlining: helper whose body is a single return"""
+        outer = self
+
+        class T(ast.NodeTransformer):
+            def visit_Call(self, node):
+                self.generic_visit(node)
+                h = outer.helper(node)
+                if h is None:
+                    return node
+                fn, ps = h
+                body = _strip_doc(fn.body)
+                if not (len(body) == 1 and isinstance(body[0], ast.Return) and body[0].value is not None):
+                    raise TranslationError('helper %s is used inside an expression but is not a single return' % fn.name, node)
+                if depth > 6:
+                    raise TranslationError('helper inlining too deep (%s)' % fn.name, node)
+                inner = outer.expr(copy.deepcopy(body[0].value), depth + 1)
+                return ast.copy_location(_Subst(dict(zip(ps, node.args))).visit(inner), node)
+        return T().visit(e)
+
+    def stmts(self, body, depth=0):
+        out = []
+        for st in body:
+            tgt_call = None
+            if isinstance(st, ast.Return) and st.value is not None:
+                tgt_call = st.value
+            elif isinstance(st, ast.Assign) and len(st.targets) == 1:
+                tgt_call = st.value
+            h = self.helper(tgt_call) if tgt_call is not None else None
+            hb = _strip_doc(h[0].body) if h else None
+            if h and not (len(hb) == 1 and isinstance(hb[0], ast.Return)):
+                # statement-level inlining: parameters become renamed locals initialised from the arguments
+                fn, ps = h
+                if depth > 6:
+                    raise TranslationError('helper inlining too deep (%s)' % fn.name, st)
+                self.counter += 1
+                prefix = '_%s%d_' % (fn.name.strip('_'), self.counter)
+                for p, a in zip(ps, tgt_call.args):
+                    out.append(ast.copy_location(ast.Assign(targets=[ast.Name(id=prefix + p, ctx=ast.Store())], value=self.expr(copy.deepcopy(a))), st))
+                inner = [_Rename(prefix).visit(copy.deepcopy(s)) for s in hb]
+                inner = self.stmts(inner, depth + 1)
+                if not inner or not isinstance(inner[-1], ast.Return) or inner[-1].value is None:
+                    raise TranslationError('helper %s does not end with a return' % fn.name, fn)
+                for s in inner[:-1]:
+                    for sub in ast.walk(s):
+                        if isinstance(sub, ast.Return):
+                            raise TranslationError('helper %s returns before its last statement' % fn.name, fn)
+                out += inner[:-1]
+                last = inner[-1].value
+                if isinstance(st, ast.Return):
+                    out.append(ast.copy_location(ast.Return(value=last), st))
+                else:
+                    out.append(ast.copy_location(ast.Assign(targets=st.targets, value=last), st))
+                continue
+            st = copy.deepcopy(st)
+            for field, val in ast.iter_fields(st):
+                if isinstance(val, ast.expr):
+                    setattr(st, field, self.expr(val))
+                elif isinstance(val, list) and val and isinstance(val[0], ast.stmt):
+                    setattr(st, field, self.stmts(val, depth))
+                elif isinstance(val, list) and val and isinstance(val[0], ast.expr):
+                    setattr(st, field, [self.expr(v) for v in val])
+            out.append(st)
+        return out
+
+
+# ==========================================================================================
+# symbolic values: (ir, ty) with ty in R | triple | mask | mref | fresh-array bookkeeping
+class Val:
+    def __init__(self, ir, ty='R', alias=False, gather=None):
+        self.ir, self.ty, self.alias, self.gather = ir, ty, alias, gather
+
+
+def num(fr):
+    return ('num', Fraction(fr))
+
+
+def mk_ite(c, a, b):
+    """conditional with the negations of the test moved into the order of the branches"""
+    while c[0] == 'not':
+        c, a, b = c[1], b, a
+    return ('ite', c, a, b)
+
+
+def pr_num_R(fr):
+    if fr.denominator == 1:
+        return '%d' % fr.numerator if fr.numerator >= 0 else '(%d)' % fr.numerator
+    return '(%d / %d)' % (fr.numerator, fr.denominator)
+
+
+CMPDEC = {'Lt': 'Rlt_dec', 'LtE': 'Rle_dec', 'Gt': 'Rgt_dec', 'GtE': 'Rge_dec'}
+
+
+def pr_R(ir):
+    k = ir[0]
+    if k == 'num':
+        return pr_num_R(ir[1])
+    if k == 'var':
+        return ir[1]
+    if k == 'pi':
+        return 'PI'
+    if k == 'bin':
+        return '(%s %s %s)' % (pr_R(ir[2]), ir[1], pr_R(ir[3]))
+    if k == 'neg':
+        return '(- %s)' % pr_R(ir[1])
+    if k == 'pow':
+        return '(%s ^ %d)' % (pr_R(ir[1]), ir[2])
+    if k == 'rpow':
+        return '(Rpower %s (%d / %d))' % (pr_R(ir[1]), ir[2], ir[3])
+    if k == 'fun':
+        return '(%s %s)' % (ir[1], pr_R(ir[2]))
+    if k == 'app':
+        return '(%s %s)' % (ir[1], ' '.join(pr_R(a) for a in ir[2]))
+    if k == 'max':
+        return '(Rmax %s %s)' % (pr_R(ir[1]), pr_R(ir[2]))
+    if k == 'min':
+        return '(Rmin %s %s)' % (pr_R(ir[1]), pr_R(ir[2]))
+    if k == 'triple':
+        return '(%s, %s, %s)' % (pr_R(ir[1]), pr_R(ir[2]), pr_R(ir[3]))
+    if k == 'smul3':
+        return '(smul3 %s %s)' % (pr_R(ir[1]), pr_R(ir[2]))
+    if k == 'ones3':
+        return 'ones3'
+    if k == 'ite':
+        c, t, e = ir[1], ir[2], ir[3]
+        while c[0] == 'not':
+            c, t, e = c[1], e, t
+        if c[0] != 'cmp':
+            raise TranslationError('unsupported condition in a real-valued expression')
+        return '(if %s %s %s then %s else %s)' % (CMPDEC[c[1]], pr_R(c[2]), pr_R(c[3]), pr_R(t), pr_R(e))
+    raise TranslationError('cannot print %r over the reals' % (k,))
+
+
+def pr_cond_O(c):
+    if c[0] == 'not':
+        inner = c[1]
+        if inner[0] == 'not':
+            return pr_cond_O(inner[1])
+        return '(negb %s)' % pr_cond_O(inner)
+    if c[0] != 'cmp':
+        raise TranslationError('unsupported condition in _findRcrit')
+    op, a, b = c[1], pr_O(c[2]), pr_O(c[3])
+    return {'Gt': '(ltb O %s %s)' % (b, a), 'Lt': '(ltb O %s %s)' % (a, b),
+            'GtE': '(leb O %s %s)' % (b, a), 'LtE': '(leb O %s %s)' % (a, b)}[op]
+
+
+def pr_O(ir):
+    k = ir[0]
+    if k == 'num':
+        fr = ir[1]
+        if fr.denominator != 1:
+            raise TranslationError('non-integer literal in _findRcrit')
+        return '(zero O)' if fr == 0 else '(one O)' if fr == 1 else '(ofZ O (%d))' % fr.numerator
+    if k == 'var':
+        return ir[1]
+    if k == 'bin':
+        return '(%s O %s %s)' % ({'+': 'add', '-': 'sub', '*': 'mul', '/': 'dvd'}[ir[1]], pr_O(ir[2]), pr_O(ir[3]))
+    if k == 'abs':
+        return '(absT O %s)' % pr_O(ir[1])
+    if k == 'app':
+        return '(%s %s)' % (ir[1], ' '.join(pr_O(a) for a in ir[2]))
+    if k == 'ite':
+        return '(if %s then %s else %s)' % (pr_cond_O(ir[1]), pr_O(ir[2]), pr_O(ir[3]))
+    raise TranslationError('cannot print %r over the scalar record' % (k,))
+
+
+def subst_ir(ir, m):
+    """replace ('var', x) by m[x]"""
+    if not isinstance(ir, tuple):
+        return ir
+    if ir[0] == 'var':
+        return m.get(ir[1], ir)
+    if ir[0] == 'app':
+        return ('app', ir[1], [subst_ir(a, m) for a in ir[2]])
+    return tuple(subst_ir(x, m) if isinstance(x, tuple) else x for x in ir)
+
+
+# ==========================================================================================
+class Evaluator:
+    """symbolic execution of straight-line (plus if / conditional-expression) code.
+    ctx supplies: self_attr(name) -> Val or None, self_call(name, [Val]) -> Val or None, module constants"""
+
+    def __init__(self, tr, ctx, domain='R'):
+        self.tr, self.ctx, self.domain = tr, ctx, domain
+        self.inplace = False
+
+    # ---- expressions --------------------------------------------------------------------------
+    def num_(self, e, env):
+        v = self.expr(e, env)
+        if v.ty != 'R':
+            raise TranslationError('array-of-triples / mask / method where a number is needed', e)
+        return v
+
+    def shape_kind(self, a, env):
+        """x.shape | np.atleast_1d(x).shape -> 'flat';  (len(x), 3) -> 'rows3'"""
+        if isinstance(a, ast.Attribute) and a.attr == 'shape':
+            b = a.value
+            if isinstance(b, ast.Call) and _is_np(b.func, 'atleast_1d') and len(b.args) == 1 and not b.keywords:
+                b = b.args[0]
+            if isinstance(b, ast.Name) and b.id in env and env[b.id].ty == 'R':
+                return 'flat'
+        if (isinstance(a, ast.Tuple) and len(a.elts) == 2 and isinstance(a.elts[1], ast.Constant) and a.elts[1].value == 3
+                and isinstance(a.elts[0], ast.Call) and isinstance(a.elts[0].func, ast.Name) and a.elts[0].func.id == 'len'
+                and len(a.elts[0].args) == 1 and isinstance(a.elts[0].args[0], ast.Name) and a.elts[0].args[0].id in env):
+            return 'rows3'
+        raise TranslationError('unsupported array shape expression', a)
+
+    def gather_of(self, *vals):
+        g = None
+        for v in vals:
+            if v.gather is not None:
+                if g is not None and g != v.gather:
+                    raise TranslationError('values gathered under different masks are combined')
+                g = v.gather
+        return g
+
+    def cond(self, e, env):
+        if isinstance(e, ast.UnaryOp) and isinstance(e.op, ast.Not):
+            return ('not', self.cond(e.operand, env))
+        v = self.expr(e, env)
+        if v.ty != 'mask':
+            raise TranslationError('condition is not a comparison', e)
+        return v.ir
 
     def expr(self, e, env):
         if isinstance(e, ast.Constant):
-            return _num(e.value, e), 'R'
+            return Val(num(_frac(e.value, e)))
         if isinstance(e, ast.Name):
             if e.id in env:
                 return env[e.id]
+            if e.id in self.tr.modconst:
+                if self.domain != 'R':
+                    raise TranslationError('module constant used in _findRcrit', e)
+                return Val(self.tr.modconst[e.id])
             raise TranslationError('unknown name %s' % e.id, e)
         if _is_np(e, 'pi'):
-            return 'PI', 'R'
-        if _is_self_attr(e) and self.mins is not None and e.attr in self.mins:
-            return self.mins[e.attr], 'R'
+            return Val(('pi',))
+        if _is_self_attr(e):
+            v = self.ctx.self_attr(e.attr)
+            if v is None:
+                raise TranslationError('unsupported attribute self.%s' % e.attr, e)
+            return v
         if isinstance(e, ast.UnaryOp) and isinstance(e.op, ast.USub):
-            return '(- %s)' % self.num(e.operand, env), 'R'
+            v = self.num_(e.operand, env)
+            return Val(('neg', v.ir), gather=v.gather)
+        if isinstance(e, ast.UnaryOp) and isinstance(e.op, ast.Not):
+            return Val(('not', self.cond(e.operand, env)), 'mask')
+        if isinstance(e, ast.Compare):
+            if len(e.ops) != 1 or type(e.ops[0]).__name__ not in CMPDEC:
+                raise TranslationError('unsupported comparison', e)
+            a, b = self.num_(e.left, env), self.num_(e.comparators[0], env)
+            return Val(('cmp', type(e.ops[0]).__name__, a.ir, b.ir), 'mask', gather=self.gather_of(a, b))
+        if isinstance(e, ast.IfExp):
+            c = self.cond(e.test, env)
+            a, b = self.num_(e.body, env), self.num_(e.orelse, env)
+            return Val(mk_ite(c, a.ir, b.ir), gather=self.gather_of(a, b))
         if isinstance(e, ast.BinOp):
             if isinstance(e.op, ast.Pow):
-                base = self.num(e.left, env)
+                base = self.num_(e.left, env)
                 r = e.right
                 if isinstance(r, ast.Constant) and isinstance(r.value, int) and not isinstance(r.value, bool) and r.value >= 0:
-                    return '(%s ^ %d)' % (base, r.value), 'R'
+                    return Val(('pow', base.ir, r.value), gather=base.gather)
                 if (isinstance(r, ast.BinOp) and isinstance(r.op, ast.Div) and all(
                         isinstance(x, ast.Constant) and isinstance(x.value, int) and not isinstance(x.value, bool) and x.value > 0
                         for x in (r.left, r.right))):
-                    return '(Rpower %s (%d / %d))' % (base, r.left.value, r.right.value), 'R'
+                    return Val(('rpow', base.ir, r.left.value, r.right.value), gather=base.gather)
                 raise TranslationError('exponent must be a non-negative integer literal or p/q of positive integer literals', e)
             ops = {ast.Add: '+', ast.Sub: '-', ast.Mult: '*', ast.Div: '/'}
             if type(e.op) not in ops:
                 raise TranslationError('unsupported operator %s' % type(e.op).__name__, e)
-            lt, lty = self.expr(e.left, env)
-            rt, rty = self.expr(e.right, env)
-            if lty == 'R' and rty == 'R':
-                return '(%s %s %s)' % (lt, ops[type(e.op)], rt), 'R'
-            if isinstance(e.op, ast.Mult) and lty == 'R' and rty == 'triple':
-                return '(smul3 %s %s)' % (lt, rt), 'triple'
+            a, b = self.expr(e.left, env), self.expr(e.right, env)
+            if a.ty == 'R' and b.ty == 'R':
+                return Val(('bin', ops[type(e.op)], a.ir, b.ir), gather=self.gather_of(a, b))
+            if isinstance(e.op, ast.Mult) and a.ty == 'R' and b.ty == 'triple':
+                return Val(('smul3', a.ir, b.ir), 'triple')
             raise TranslationError('unsupported array arithmetic', e)
         if isinstance(e, ast.Attribute) and e.attr == 'T' and isinstance(e.value, ast.Call):
             c = e.value
             if _is_np(c.func, 'array') and len(c.args) == 1 and not c.keywords and isinstance(c.args[0], ast.List) and len(c.args[0].elts) == 3:
-                return '(%s)' % ', '.join(self.num(x, env) for x in c.args[0].elts), 'triple'
+                xs = [self.num_(x, env).ir for x in c.args[0].elts]
+                return Val(('triple', *xs), 'triple')
             raise TranslationError('.T of something that is not np.array([a, b, c])', e)
+        if isinstance(e, ast.Subscript):
+            base = self.num_(e.value, env)
+            m = self.expr(e.slice, env)
+            if m.ty != 'mask':
+                raise TranslationError('subscript is not a boolean mask', e)
+            return Val(base.ir, gather=m.ir)
         if isinstance(e, ast.Call):
-            if e.keywords:
-                raise TranslationError('keyword arguments in a formula', e)
-            if _is_np(e.func) and e.func.attr in NPFUN and len(e.args) == 1:
-                return '(%s %s)' % (NPFUN[e.func.attr], self.num(e.args[0], env)), 'R'
-            if _is_np(e.func, 'ones') and len(e.args) == 1:
-                a = e.args[0]
-                if isinstance(a, ast.Attribute) and a.attr == 'shape' and isinstance(a.value, ast.Name) and a.value.id in env:
-                    return '1', 'R'
-                if (isinstance(a, ast.Tuple) and len(a.elts) == 2 and isinstance(a.elts[1], ast.Constant) and a.elts[1].value == 3
-                        and isinstance(a.elts[0], ast.Call) and isinstance(a.elts[0].func, ast.Name) and a.elts[0].func.id == 'len'
-                        and len(a.elts[0].args) == 1 and isinstance(a.elts[0].args[0], ast.Name) and a.elts[0].args[0].id in env):
-                    return 'ones3', 'triple'
-                raise TranslationError('np.ones of something that is neither <arg>.shape nor (len(<arg>), 3)', e)
-            if _is_self_attr(e.func) and len(e.args) == 1:
-                m = e.func.attr
-                arg = self.num(e.args[0], env)
-                if self.funparams is not None:
-                    if m not in self.funparams:
-                        self.funparams.append(m)
-                    return '(%s %s)' % (_ident(m), arg), 'R'
-                if m in WRAPPERS:
-                    if self.mins is None:
-                        raise TranslationError('public wrapper %s called from a formula' % m, e)
-                    gname = self.tr.wrapper_instance(self.cname, m, self.mins[WRAPPERS[m][0]])
-                    return '(%s %s)' % (gname, arg), 'R'
-                gname, ty = self.tr.formula(self.cname, m)
-                return '(%s %s)' % (gname, arg), ty
-            raise TranslationError('unsupported call', e)
+            return self.call(e, env)
         raise TranslationError('unsupported expression %s' % type(e).__name__, e)
 
-    def body(self, fn, params):
-        env = {p: (_ident(p), 'R') for p in params}
-        lets, ret, cnt = [], None, {}
-        for st in _strip_doc(fn.body):
-            if ret is not None:
-                raise TranslationError('statement after return', st)
-            if isinstance(st, ast.Assign) and len(st.targets) == 1 and isinstance(st.targets[0], ast.Name):
-                n = st.targets[0].id
-                txt, ty = self.expr(st.value, env)
-                cnt[n] = cnt.get(n, 0) + 1
-                v = _ident(n) if cnt[n] == 1 and n not in params else '%s_%d' % (n, cnt[n])
-                lets.append('let %s := %s in' % (v, txt))
-                env[n] = (v, ty)
+    def call(self, e, env):
+        f = e.func
+        if _is_np(f):
+            name = f.attr
+            if name == 'full':
+                kw = {k.arg: k.value for k in e.keywords}
+                if len(e.args) != 2 or set(kw) != {'dtype'} or not (_is_np(kw['dtype'], 'float64') or (isinstance(kw['dtype'], ast.Name) and kw['dtype'].id == 'float')):
+                    raise TranslationError('np.full must be np.full(shape, value, dtype=np.float64) (without dtype the result takes the dtype of the value)', e)
+                sk = self.shape_kind(e.args[0], env)
+                v = self.num_(e.args[1], env)
+                return Val(v.ir) if sk == 'flat' else Val(('triple', v.ir, v.ir, v.ir), 'triple')
+            if e.keywords:
+                raise TranslationError('keyword arguments in a numpy call', e)
+            if name in NPFUN and len(e.args) == 1:
+                if self.domain != 'R':
+                    raise TranslationError('transcendental function in _findRcrit', e)
+                v = self.num_(e.args[0], env)
+                return Val(('fun', NPFUN[name], v.ir), gather=v.gather)
+            if name == 'abs' and len(e.args) == 1:
+                if self.domain != 'O':
+                    raise TranslationError('np.abs outside _findRcrit', e)
+                return Val(('abs', self.num_(e.args[0], env).ir))
+            if name == 'atleast_1d' and len(e.args) == 1:
+                v = self.expr(e.args[0], env)
+                return Val(v.ir, v.ty, alias=v.alias, gather=v.gather)       # returns its argument (or a view of it)
+            if name == 'squeeze' and len(e.args) == 1:
+                v = self.expr(e.args[0], env)
+                return Val(v.ir, v.ty, gather=v.gather)
+            if name == 'ones' and len(e.args) == 1:
+                return Val(num(1)) if self.shape_kind(e.args[0], env) == 'flat' else Val(('ones3',), 'triple')
+            if name == 'where' and len(e.args) == 3:
+                c = self.cond(e.args[0], env)
+                a, b = self.num_(e.args[1], env), self.num_(e.args[2], env)
+                return Val(mk_ite(c, a.ir, b.ir))
+            if name in ('maximum', 'minimum') and len(e.args) == 2:
+                a, b = self.num_(e.args[0], env), self.num_(e.args[1], env)
+                return Val(('max' if name == 'maximum' else 'min', a.ir, b.ir))
+            raise TranslationError('unsupported numpy call np.%s' % name, e)
+        if e.keywords:
+            raise TranslationError('keyword arguments in a call', e)
+        args = [self.expr(a, env) for a in e.args]
+        if isinstance(f, ast.Name) and f.id in env and env[f.id].ty == 'mref':
+            g = self.gather_of(*args)
+            return Val(('app', env[f.id].ir, [a.ir for a in args]), gather=g)
+        v = self.ctx.call(f, args, e)
+        if v is None:
+            raise TranslationError('unsupported call', e)
+        return v
+
+    # ---- statements ------------------------------------------------------------------------------
+    def assign(self, target, v, env, st):
+        if isinstance(target, ast.Name):
+            env[target.id] = v
+        elif isinstance(target, ast.Subscript) and isinstance(target.value, ast.Name) and target.value.id in env:
+            old = env[target.value.id]
+            m = self.expr(target.slice, env)
+            if m.ty != 'mask' or old.ty != 'R' or v.ty != 'R':
+                raise TranslationError('unsupported masked assignment', st)
+            if v.gather is not None and v.gather != m.ir:
+                raise TranslationError('masked assignment: right-hand side was gathered under a different mask', st)
+            if old.alias:
+                self.inplace = True
+            env[target.value.id] = Val(mk_ite(m.ir, v.ir, old.ir), alias=old.alias)
+        else:
+            raise TranslationError('unsupported assignment target', st)
+
+    def block(self, body, env):
+        """returns the Val returned, or None when the block falls through"""
+        for i, st in enumerate(body):
+            if isinstance(st, ast.Expr) and isinstance(st.value, ast.Constant):
+                continue
+            if isinstance(st, ast.Assign) and len(st.targets) == 1:
+                t = st.targets[0]
+                if isinstance(t, ast.Tuple):
+                    if not (isinstance(st.value, ast.Tuple) and len(st.value.elts) == len(t.elts)):
+                        raise TranslationError('tuple assignment from something that is not a tuple of the same length', st)
+                    vals = [self.expr(x, env) for x in st.value.elts]       # simultaneous
+                    for tt, v in zip(t.elts, vals):
+                        self.assign(tt, v, env, st)
+                else:
+                    self.assign(t, self.expr(st.value, env), env, st)
+            elif isinstance(st, ast.AugAssign) and isinstance(st.target, ast.Name):
+                v = self.expr(ast.BinOp(left=ast.Name(id=st.target.id, ctx=ast.Load()), op=st.op, right=st.value), env)
+                env[st.target.id] = v
             elif isinstance(st, ast.Return) and st.value is not None:
-                ret = self.expr(st.value, env)
+                return self.expr(st.value, env)
+            elif isinstance(st, ast.If):
+                c = self.cond(st.test, env)
+                e1, e2 = dict(env), dict(env)
+                r1 = self.block(st.body, e1)
+                r2 = self.block(st.orelse, e2) if st.orelse else None
+                if r1 is not None and r2 is None and not st.orelse:
+                    # early return: the rest of the block is the else branch
+                    r2 = self.block(body[i + 1:], e2)
+                    if r2 is None:
+                        raise TranslationError('missing return after a conditional return', st)
+                    if r1.ty != 'R' or r2.ty != 'R':
+                        raise TranslationError('conditional return of non-scalars', st)
+                    return Val(mk_ite(c, r1.ir, r2.ir))
+                if r1 is not None or r2 is not None:
+                    if r1 is None or r2 is None or r1.ty != 'R' or r2.ty != 'R':
+                        raise TranslationError('only one branch of a conditional returns', st)
+                    return Val(mk_ite(c, r1.ir, r2.ir))
+                for k in set(e1) | set(e2):
+                    a, b = e1.get(k), e2.get(k)
+                    if a is None or b is None:
+                        env.pop(k, None)      # defined in one branch only: unusable afterwards
+                    elif a is b or (a.ty == b.ty and a.ir == b.ir):
+                        env[k] = a
+                    elif a.ty == 'R' and b.ty == 'R':
+                        env[k] = Val(mk_ite(c, a.ir, b.ir))
+                    else:
+                        raise TranslationError('conditional assignment of non-scalars', st)
             else:
                 raise TranslationError('unsupported statement %s' % type(st).__name__, st)
-        if ret is None:
-            raise TranslationError('no return', fn)
-        return ('\n  '.join(lets) + '\n  ' if lets else '') + ret[0], ret[1]
+        return None
 
 
+# ==========================================================================================
+class DescrCtx:
+    """entities visible through `self` inside a description class"""
+
+    def __init__(self, tr, cname, mins=None, minvars=None, raw=None):
+        # mins: constructor context (attribute -> current value); minvars / raw: generic wrapper context, in which
+        # the wrapper's own `...Min` attribute and its own formula method are parameters (fmin, f)
+        self.tr, self.cname, self.mins, self.minvars, self.raw = tr, cname, mins, minvars, raw
+
+    def self_attr(self, name):
+        if self.mins is not None and name in self.mins:
+            return Val(self.mins[name])
+        if self.minvars is not None and name in self.minvars:
+            return Val(('var', self.minvars[name]))
+        if name in FORMULAS or name == 'eccentricity':
+            if self.minvars is not None and name in FORMULAS:
+                if name != self.raw:
+                    raise TranslationError('a wrapper uses the formula %s of another factor' % name)
+                return Val('f', 'mref')
+            gname, ty = self.tr.formula(self.cname, name)
+            return Val(gname, 'mref')
+        return None
+
+    def call(self, f, args, e):
+        if not _is_self_attr(f):
+            return None
+        m = f.attr
+        tr = self.tr
+        if m == '_processAspectRatio' and len(args) == 1 and args[0].ty == 'R':
+            tr.need_par()
+            return Val(('app', 'processAspectRatio_gen', [args[0].ir]))
+        if (m in FORMULAS or m == 'eccentricity') and len(args) == 1 and args[0].ty == 'R':
+            if self.minvars is not None and m in FORMULAS:
+                # inside the generic wrappers the formula is a parameter
+                if m != self.raw:
+                    raise TranslationError('a wrapper calls the formula %s of another factor' % m, e)
+                return Val(('app', 'f', [args[0].ir]), 'triple' if m == '_normalRadii' else 'R', gather=args[0].gather)
+            gname, ty = tr.formula(self.cname, m)
+            return Val(('app', gname, [args[0].ir]), ty, gather=args[0].gather)
+        if m in WRAPPERS and self.mins is not None and len(args) == 1 and args[0].ty == 'R':
+            rawname, _ = tr.formula(self.cname, WRAPPERS[m][1])
+            return Val(('app', '%s_wrapper_gen' % m, [self.mins[WRAPPERS[m][0]], ('var', rawname), args[0].ir]))
+        return None
+
+
+class SFCtx:
+    def __init__(self, tr, attrs, funs, descr=None):
+        self.tr, self.attrs, self.funs, self.descr = tr, attrs, funs, descr
+
+    def self_attr(self, name):
+        if name in self.attrs:
+            return Val(('var', self.attrs[name]))
+        return None
+
+    def call(self, f, args, e):
+        if _is_self_attr(f) and f.attr in self.funs and len(args) == 1 and args[0].ty == 'R':
+            return Val(('app', self.funs[f.attr], [args[0].ir]))
+        if (self.descr is not None and isinstance(f, ast.Attribute) and _is_self_attr(f.value, 'description') and f.attr == self.descr[0]
+                and len(args) == 1 and args[0].ty == 'R'):
+            return Val(('app', self.descr[1], [args[0].ir]), self.descr[2])
+        return None
+
+
+# ==========================================================================================
 class Translator:
     def __init__(self, src):
         try:
@@ -274,14 +685,20 @@ class Translator:
         self.out = []
         self.names = []
         self.active = set()
-        self.wrapper_defs = {}
-        self.winst = {}
+        self.modconst = {}
+        self.par_done = False
+        self.maxiter = None
 
     def emit(self, name, text):
         if name in self.names:
             raise TranslationError('definition %s emitted twice' % name)
         self.names.append(name)
         self.out.append(text)
+
+    def method_body(self, cname, meth, known):
+        dc, fn = self.C.find(cname, meth)
+        body = _Inliner(self.C, cname, known).stmts(_strip_doc(fn.body))
+        return dc, fn, body
 
     # ---- formulas ------------------------------------------------------------------------
     def formula(self, cname, meth):
@@ -292,113 +709,75 @@ class Translator:
         if key in self.active:
             raise TranslationError('recursive formula %s.%s' % (dc, meth))
         self.active.add(key)
-        params = _params(fn, 1)
-        # helpers are resolved from the concrete class; a helper overridden below `dc` would make the
-        # text class dependent: only allow formulas whose helpers resolve identically for every user
-        body, ty = _Formula(self, cname).body(fn, params)
+        p = _params(fn, 1)[0]
+        body = _Inliner(self.C, cname, KNOWN_DESCR).stmts(_strip_doc(fn.body))
+        ev = Evaluator(self, DescrCtx(self, cname))
+        v = ev.block(body, {p: Val(('var', _ident(p)))})
+        if v is None or v.ty not in ('R', 'triple') or v.gather is not None or ev.inplace:
+            raise TranslationError('%s.%s does not return a number / a row of three numbers' % (dc, meth), fn)
         gname = '%s_%s_gen' % (SHORT.get(dc, dc), meth.lstrip('_'))
         self.emit(gname, '(* %s.%s (line %d) *)\nDefinition %s (%s : R) : %s :=\n  %s.'
-                  % (dc, meth, fn.lineno, gname, _ident(params[0]), 'R' if ty == 'R' else 'triple', body))
+                  % (dc, meth, fn.lineno, gname, _ident(p), 'R' if v.ty == 'R' else 'triple', pr_R(v.ir)))
         self.active.discard(key)
-        self.done[key] = (gname, ty)
-        return gname, ty
+        self.done[key] = (gname, v.ty)
+        return gname, v.ty
 
     # ---- wrappers ------------------------------------------------------------------------
+    def need_par(self):
+        if not self.par_done:
+            self.process_aspect_ratio()
+
     def process_aspect_ratio(self):
-        dc, fn = self.C.find(BASE, '_processAspectRatio')
+        self.par_done = True
         for _, cname in DESCRIPTIONS:
             if self.C.find(cname, '_processAspectRatio')[0] != BASE:
                 raise TranslationError('%s overrides _processAspectRatio' % cname)
-        ps = _params(fn, 1)
-        body = _strip_doc(fn.body)
-        p = ps[0]
-        if not body or not _same(body[0], '%s = np.atleast_1d(%s)' % (p, p)):
-            raise TranslationError('_processAspectRatio does not start with `%s = np.atleast_1d(%s)`' % (p, p), fn)
-
-        def mask(t):
-            ok = (isinstance(t, ast.Compare) and len(t.ops) == 1 and type(t.ops[0]) in CMP and isinstance(t.left, ast.Name)
-                  and t.left.id == p and isinstance(t.comparators[0], ast.Constant))
-            if not ok:
-                raise TranslationError('_processAspectRatio: mask is not `%s <cmp> <constant>`' % p, t)
-            return CMP[type(t.ops[0])], _num(t.comparators[0].value, t)
-        inplace = None
-        if len(body) == 3 and isinstance(body[1], ast.Assign) and len(body[1].targets) == 1 and isinstance(body[1].targets[0], ast.Subscript):
-            tg = body[1].targets[0]
-            if not (isinstance(tg.value, ast.Name) and tg.value.id == p and isinstance(body[1].value, ast.Constant) and _same(body[2], 'return %s' % p)):
-                raise TranslationError('_processAspectRatio: unexpected in-place form', body[1])
-            op, c = mask(tg.slice)
-            v = _num(body[1].value.value, body[1])
-            inplace = True
-        elif len(body) == 2 and isinstance(body[1], ast.Return) and isinstance(body[1].value, ast.Call) and _is_np(body[1].value.func, 'where'):
-            call = body[1].value
-            if call.keywords or len(call.args) != 3 or not isinstance(call.args[1], ast.Constant) or not (isinstance(call.args[2], ast.Name) and call.args[2].id == p):
-                raise TranslationError('_processAspectRatio: np.where is not np.where(%s <cmp> c, v, %s)' % (p, p), call)
-            op, c = mask(call.args[0])
-            v = _num(call.args[1].value, call)
-            inplace = False
-        else:
-            raise TranslationError('_processAspectRatio has an unexpected shape', fn)
-        self.emit('processAspectRatio_gen',
-                  '(* %s._processAspectRatio (line %d) *)\nDefinition processAspectRatio_gen (%s : R) : R := if %s %s %s then %s else %s.'
-                  % (BASE, fn.lineno, _ident(p), op, _ident(p), c, v, _ident(p)))
+        dc, fn, body = self.method_body(BASE, '_processAspectRatio', KNOWN_DESCR)
+        p = _params(fn, 1)[0]
+        ev = Evaluator(self, DescrCtx(self, BASE))
+        v = ev.block(body, {p: Val(('var', _ident(p)), alias=True)})
+        if v is None or v.ty != 'R' or v.gather is not None:
+            raise TranslationError('_processAspectRatio does not return an array of numbers', fn)
+        self.emit('processAspectRatio_gen', '(* %s._processAspectRatio (line %d) *)\nDefinition processAspectRatio_gen (%s : R) : R :=\n  %s.'
+                  % (BASE, fn.lineno, _ident(p), pr_R(v.ir)))
         self.emit('processAspectRatio_inplace_gen',
                   '(* does _processAspectRatio write into the array it was given? *)\n'
-                  'Definition processAspectRatio_inplace_gen : bool := %s.' % ('true' if inplace else 'false'))
+                  'Definition processAspectRatio_inplace_gen : bool := %s.' % ('true' if ev.inplace else 'false'))
 
     def wrappers(self):
+        self.need_par()
         for pub, (mn, raw) in WRAPPERS.items():
-            dc, fn = self.C.find(BASE, pub)
+            dc, fn, body = self.method_body(BASE, pub, KNOWN_DESCR)
             p = _params(fn, 1)[0]
-            body = _strip_doc(fn.body)
-            if len(body) != 4:
-                raise TranslationError('public wrapper %s is not the four-statement mask idiom' % pub, fn)
-            if not _same(body[0], '%s = self._processAspectRatio(%s)' % (p, p)):
-                raise TranslationError('%s: first statement is not the call of _processAspectRatio' % pub, body[0])
-            if not _same(body[1], 'factor = self.%s * np.ones(%s.shape)' % (mn, p)):
-                raise TranslationError('%s: second statement is not `factor = self.%s * np.ones(%s.shape)`' % (pub, mn, p), body[1])
-            st = body[2]
-            ok = (isinstance(st, ast.Assign) and len(st.targets) == 1 and isinstance(st.targets[0], ast.Subscript)
-                  and isinstance(st.targets[0].value, ast.Name) and st.targets[0].value.id == 'factor')
-            m = st.targets[0].slice if ok else None
-            ok = (ok and isinstance(m, ast.Compare) and len(m.ops) == 1 and type(m.ops[0]) in CMP and isinstance(m.left, ast.Name)
-                  and m.left.id == p and isinstance(m.comparators[0], ast.Constant))
-            if not ok:
-                raise TranslationError('%s: third statement is not `factor[%s <cmp> c] = ...`' % (pub, p), st)
-            want = ast.parse('self.%s(%s[MASK])' % (raw, p)).body[0].value
-            want.args[0].slice = m
-            if ast.dump(st.value) != ast.dump(want):
-                raise TranslationError('%s: right-hand side is not self.%s(%s[<same mask>])' % (pub, raw, p), st)
-            if not _same(body[3], 'return np.squeeze(factor)'):
-                raise TranslationError('%s: does not end with return np.squeeze(factor)' % pub, body[3])
+            ctx = DescrCtx(self, BASE, minvars={mn: 'fmin'}, raw=raw)
+            ev = Evaluator(self, ctx)
+            v = ev.block(body, {p: Val(('var', _ident(p)), alias=True)})
+            if v is None or v.ty != 'R' or v.gather is not None:
+                raise TranslationError('%s does not return an array of numbers' % pub, fn)
+            if ev.inplace:
+                raise TranslationError('%s writes into its argument' % pub, fn)
+            txt = pr_R(v.ir)
+            # the wrapper may only use ITS OWN Min attribute and ITS OWN formula (checked: other names do not resolve)
             self.emit('%s_wrapper_gen' % pub,
-                      '(* %s.%s (line %d): factor = self.%s * np.ones(...); factor[mask] = self.%s(%s[mask]) *)\n'
-                      'Definition %s_wrapper_gen (fmin : R) (f : R -> R) (%s : R) : R :=\n'
-                      '  let %s := processAspectRatio_gen %s in\n  if %s %s %s then f %s else fmin * 1.'
-                      % (BASE, pub, fn.lineno, mn, raw, p, pub, _ident(p), _ident(p), _ident(p),
-                         CMP[type(m.ops[0])], _ident(p), _num(m.comparators[0].value, m), _ident(p)))
-        dc, fn = self.C.find(BASE, 'normalRadii')
+                      '(* %s.%s (line %d); self.%s is fmin, self.%s is f *)\n'
+                      'Definition %s_wrapper_gen (fmin : R) (f : R -> R) (%s : R) : R :=\n  %s.'
+                      % (BASE, pub, fn.lineno, mn, raw, pub, _ident(p), txt))
+        dc, fn, body = self.method_body(BASE, 'normalRadii', KNOWN_DESCR)
         p = _params(fn, 1)[0]
-        body = _strip_doc(fn.body)
-        if not (len(body) == 2 and _same(body[0], '%s = self._processAspectRatio(%s)' % (p, p))
-                and _same(body[1], 'return np.squeeze(self._normalRadii(%s))' % p)):
-            raise TranslationError('normalRadii is not `ar = self._processAspectRatio(ar); return np.squeeze(self._normalRadii(ar))`', fn)
+        ev = Evaluator(self, DescrCtx(self, BASE, minvars={}, raw='_normalRadii'))
+        v = ev.block(body, {p: Val(('var', _ident(p)), alias=True)})
+        if v is None or v.ty != 'triple' or ev.inplace:
+            raise TranslationError('normalRadii does not return rows of three numbers', fn)
         self.emit('normalRadii_wrapper_gen',
-                  '(* %s.normalRadii (line %d) *)\nDefinition normalRadii_wrapper_gen (f : R -> triple) (%s : R) : triple := f (processAspectRatio_gen %s).'
-                  % (BASE, fn.lineno, _ident(p), _ident(p)))
+                  '(* %s.normalRadii (line %d); self._normalRadii is f *)\nDefinition normalRadii_wrapper_gen (f : R -> triple) (%s : R) : triple :=\n  %s.'
+                  % (BASE, fn.lineno, _ident(p), pr_R(v.ir)))
         for _, cname in DESCRIPTIONS:
             for pub in list(WRAPPERS) + ['normalRadii']:
                 if self.C.find(cname, pub)[0] != BASE:
                     raise TranslationError('%s overrides the public wrapper %s' % (cname, pub))
 
-    def wrapper_instance(self, cname, pub, mintext):
-        """a public wrapper called inside a constructor, with the Min value of that moment"""
-        mn, raw = WRAPPERS[pub]
-        rawname, _ = self.formula(cname, raw)
-        return '(%s_wrapper_gen %s %s)' % (pub, mintext, rawname)
-
     # ---- constructors --------------------------------------------------------------------
     def run_init(self, cname, start=None):
-        """symbolic execution of cname.__init__ along the MRO; returns attribute -> Coq text"""
         dc, fn = self.C.find(start or cname, '__init__', required=False)
         if fn is None:
             raise TranslationError('no constructor found for %s' % cname)
@@ -415,12 +794,11 @@ class Translator:
                 attr = st.targets[0].attr
                 if attr not in MINS:
                     raise TranslationError('constructor of %s sets an unexpected attribute %s' % (dc, attr), st)
-                cur = dict(mins)
-                for m in MINS:
-                    if m not in cur:
-                        cur[m] = None
-                f = _Formula(self, cname, mins={k: v for k, v in cur.items() if v is not None})
-                mins[attr] = f.num(st.value, {})
+                ev = Evaluator(self, DescrCtx(self, cname, mins=dict(mins)))
+                v = ev.expr(_Inliner(self.C, cname, KNOWN_DESCR).expr(copy.deepcopy(st.value)), {})
+                if v.ty != 'R' or v.gather is not None:
+                    raise TranslationError('constructor of %s: %s is not a number' % (dc, attr), st)
+                mins[attr] = v.ir
                 continue
             raise TranslationError('unsupported statement in %s.__init__' % dc, st)
         return mins
@@ -436,7 +814,7 @@ class Translator:
         for m in MINS:
             if m not in mins:
                 raise TranslationError('constructor of %s does not set %s' % (cname, m))
-            self.emit('%s_%s_gen' % (short, m), 'Definition %s_%s_gen : R := %s.' % (short, m, mins[m]))
+            self.emit('%s_%s_gen' % (short, m), 'Definition %s_%s_gen : R := %s.' % (short, m, pr_R(mins[m])))
         self.emit('%s_gen' % short,
                   'Definition %s_gen : description :=\n  mkDescr %s %s %s\n          %s %s %s %s.'
                   % (short, *['%s_%s_gen' % (short, m) for m in MINS], names['_eqRadius'], names['_normalRadii'],
@@ -453,24 +831,24 @@ class Translator:
         if cn not in self.C.cls or self.C.cls[cn][1] is not None:
             raise TranslationError('class ShapeFactor missing or derived')
         for m in ['normalRadii'] + list(WRAPPERS):
-            dc, fn = self.C.find(cn, m)
+            dc, fn, body = self.method_body(cn, m, KNOWN_SF)
             p = _params(fn, 1)[0]
-            body = _strip_doc(fn.body)
-            if not (len(body) == 2 and _same(body[0], 'ar = self.aspectRatio(%s)' % p) and _same(body[1], 'return self.description.%s(ar)' % m)):
-                raise TranslationError('ShapeFactor.%s is not `ar = self.aspectRatio(R); return self.description.%s(ar)`' % (m, m), fn)
             ty = 'triple' if m == 'normalRadii' else 'R'
+            ctx = SFCtx(self, {}, {'aspectRatio': 'aspectRatio'}, descr=(m, 'description_%s' % m, ty))
+            v = Evaluator(self, ctx).block(body, {p: Val(('var', _ident(p)))})
+            if v is None or v.ty != ty:
+                raise TranslationError('ShapeFactor.%s does not return the description\'s %s' % (m, m), fn)
             self.emit('ShapeFactor_%s_gen' % m,
-                      '(* ShapeFactor.%s (line %d) *)\nDefinition ShapeFactor_%s_gen (description_%s : R -> %s) (aspectRatio : R -> R) (%s : R) : %s :=\n'
-                      '  let ar := aspectRatio %s in\n  description_%s ar.' % (m, fn.lineno, m, m, ty, _ident(p), ty, _ident(p), m))
-        dc, fn = self.C.find(cn, '_scalarAspectRatioEquation')
+                      '(* ShapeFactor.%s (line %d) *)\nDefinition ShapeFactor_%s_gen (description_%s : R -> %s) (aspectRatio : R -> R) (%s : R) : %s :=\n  %s.'
+                      % (m, fn.lineno, m, m, ty, _ident(p), ty, pr_R(v.ir)))
+        dc, fn, body = self.method_body(cn, '_scalarAspectRatioEquation', KNOWN_SF)
         p = _params(fn, 1)[0]
-        body = _strip_doc(fn.body)
-        if not (len(body) == 2 and _same(body[0], '%s = np.atleast_1d(%s)' % (p, p))
-                and _same(body[1], 'return np.squeeze(self._aspectRatioScalar * np.ones(%s.shape))' % p)):
-            raise TranslationError('_scalarAspectRatioEquation has an unexpected shape', fn)
+        v = Evaluator(self, SFCtx(self, {'_aspectRatioScalar': 'aspectRatioScalar'}, {})).block(body, {p: Val(('var', _ident(p)))})
+        if v is None or v.ty != 'R':
+            raise TranslationError('_scalarAspectRatioEquation does not return numbers', fn)
         self.emit('scalarAspectRatio_gen',
-                  '(* ShapeFactor._scalarAspectRatioEquation (line %d) *)\nDefinition scalarAspectRatio_gen (aspectRatioScalar : R) (%s : R) : R := aspectRatioScalar * 1.'
-                  % (fn.lineno, _ident(p)))
+                  '(* ShapeFactor._scalarAspectRatioEquation (line %d) *)\nDefinition scalarAspectRatio_gen (aspectRatioScalar : R) (%s : R) : R :=\n  %s.'
+                  % (fn.lineno, _ident(p), pr_R(v.ir)))
         dc, fn = self.C.find(cn, 'setAspectRatio')
         p = _params(fn, 1)[0]
         body = _strip_doc(fn.body)
@@ -481,161 +859,242 @@ class Translator:
         self.emit('setAspectRatio_dispatch_gen',
                   '(* ShapeFactor.setAspectRatio (line %d): scalar -> (_scalarAspectRatioEquation, _findRcritScalar); otherwise -> (the callable, _findRcrit) *)\n'
                   'Definition setAspectRatio_dispatch_gen : bool := true.' % fn.lineno)
-        # _findRcritScalar
-        dc, fn = self.C.find(cn, '_findRcritScalar')
+        dc, fn, body = self.method_body(cn, '_findRcritScalar', KNOWN_SF)
         ps = _params(fn, 2)
-        fp = []
-        body, ty = _Formula(self, cn, funparams=fp).body(fn, ps)
-        if fp != ['thermoFactor'] or ty != 'R':
-            raise TranslationError('_findRcritScalar must use self.thermoFactor only', fn)
+        v = Evaluator(self, SFCtx(self, {}, {'thermoFactor': 'thermoFactor'})).block(body, {x: Val(('var', _ident(x))) for x in ps})
+        if v is None or v.ty != 'R':
+            raise TranslationError('_findRcritScalar does not return a number', fn)
         self.emit('findRcritScalar_gen',
                   '(* ShapeFactor._findRcritScalar (line %d); self.thermoFactor becomes a parameter *)\n'
                   'Definition findRcritScalar_gen (thermoFactor : R -> R) (%s : R) : R :=\n  %s.'
-                  % (fn.lineno, ' '.join(_ident(x) for x in ps), body))
+                  % (fn.lineno, ' '.join(_ident(x) for x in ps), pr_R(v.ir)))
         self.find_rcrit()
 
     # ---- the bisection, over Ops ----------------------------------------------------------
-    def ops_expr(self, e, env, attrs, funs):
-        """arithmetic expression over the scalar record O"""
-        if isinstance(e, ast.Constant):
-            fr = _frac(e.value, e)
-            if fr.denominator != 1:
-                raise TranslationError('non-integer literal in _findRcrit', e)
-            if fr == 0:
-                return '(zero O)'
-            if fr == 1:
-                return '(one O)'
-            return '(ofZ O (%d))' % fr.numerator
-        if isinstance(e, ast.Name):
-            if e.id in env:
-                return env[e.id]
-            raise TranslationError('unknown name %s in _findRcrit' % e.id, e)
-        if _is_self_attr(e) and e.attr in attrs:
-            return attrs[e.attr]
-        if isinstance(e, ast.BinOp):
-            ops = {ast.Add: 'add', ast.Sub: 'sub', ast.Mult: 'mul', ast.Div: 'dvd'}
-            if type(e.op) not in ops:
-                raise TranslationError('unsupported operator in _findRcrit', e)
-            return '(%s O %s %s)' % (ops[type(e.op)], self.ops_expr(e.left, env, attrs, funs), self.ops_expr(e.right, env, attrs, funs))
-        if isinstance(e, ast.Call) and not e.keywords and len(e.args) == 1:
-            if _is_self_attr(e.func) and e.func.attr in funs:
-                return '(%s %s)' % (funs[e.func.attr], self.ops_expr(e.args[0], env, attrs, funs))
-            if _is_np(e.func, 'abs'):
-                return '(absT O %s)' % self.ops_expr(e.args[0], env, attrs, funs)
-        raise TranslationError('unsupported expression in _findRcrit', e)
-
-    def ops_test(self, t, env, attrs, funs):
-        if not (isinstance(t, ast.Compare) and len(t.ops) == 1):
-            raise TranslationError('unsupported test in _findRcrit', t)
-        a = self.ops_expr(t.left, env, attrs, funs)
-        b = self.ops_expr(t.comparators[0], env, attrs, funs)
-        op = type(t.ops[0])
-        if op is ast.Gt:
-            return '(ltb O %s %s)' % (b, a)
-        if op is ast.Lt:
-            return '(ltb O %s %s)' % (a, b)
-        if op is ast.GtE:
-            return '(leb O %s %s)' % (b, a)
-        if op is ast.LtE:
-            return '(leb O %s %s)' % (a, b)
-        raise TranslationError('unsupported comparison in _findRcrit', t)
-
     def find_rcrit(self):
-        dc, fn = self.C.find('ShapeFactor', '_findRcrit')
-        ps = _params(fn, 2)
-        rs, rmax = ps
-        body = _strip_doc(fn.body)
-        attrs = {'tol': 'tol'}
-        funs = {'thermoFactor': 'thermoFactor'}
-        state = ['minR', 'maxR', 'midR', 'fMin', 'fMax', 'fMid']
-        if rs in state or rmax in state or rs == 'n' or rmax == 'n':
-            raise TranslationError('_findRcrit: parameter names clash with the loop state', fn)
-
-        def assign(st, name):
-            if not (isinstance(st, ast.Assign) and len(st.targets) == 1 and isinstance(st.targets[0], ast.Name) and st.targets[0].id == name):
-                raise TranslationError('_findRcrit: expected an assignment to %s' % name, st)
-            return st.value
-        if len(body) != 9:
-            raise TranslationError('_findRcrit does not have the expected nine statements (six initialisations, n = 0, while, return)', fn)
-        env0 = {rs: _ident(rs), rmax: _ident(rmax)}
-        init = {}
-        env = dict(env0)
-        for st, name in zip(body[:6], state):
-            init[name] = self.ops_expr(assign(st, name), env, attrs, funs)
-            env[name] = name + '0'
-        n0 = assign(body[6], 'n')
-        if not (isinstance(n0, ast.Constant) and n0.value == 0 and not isinstance(n0.value, bool)):
-            raise TranslationError('_findRcrit: n does not start at 0', body[6])
-        w = body[7]
-        if not (isinstance(w, ast.While) and not w.orelse and len(w.body) == 5):
-            raise TranslationError('_findRcrit: expected `while` with five statements', w)
-        senv = dict(env0)
-        for v in state:
-            senv[v] = '(%s s)' % v
-        cond = self.ops_test(w.test, senv, attrs, funs)
-        br = w.body[0]
-        if not (isinstance(br, ast.If) and len(br.body) == 2 and len(br.orelse) == 2):
-            raise TranslationError('_findRcrit: expected a two-branch update with two assignments each', br)
-        brtest = self.ops_test(br.test, senv, attrs, funs)
-
-        def branch(stmts):
-            upd = {}
-            for st in stmts:
-                if not (isinstance(st, ast.Assign) and len(st.targets) == 1 and isinstance(st.targets[0], ast.Name)
-                        and st.targets[0].id in ('minR', 'maxR', 'fMin', 'fMax') and isinstance(st.value, ast.Name) and st.value.id in state):
-                    raise TranslationError('_findRcrit: branch statement is not <bracket variable> = <state variable>', st)
-                if st.targets[0].id in upd:
-                    raise TranslationError('_findRcrit: variable assigned twice in a branch', st)
-                # simultaneous reading is only right if no assigned variable is read later in the branch
-                if st.value.id in upd:
-                    raise TranslationError('_findRcrit: branch reads a variable it has just assigned', st)
-                upd[st.targets[0].id] = st.value.id
-            return '(%s)' % ', '.join('%s s' % upd.get(v, v) for v in ('minR', 'maxR', 'fMin', 'fMax'))
-        b_then, b_else = branch(br.body), branch(br.orelse)
-        lenv = dict(env0)
-        lenv.update({'minR': 'mn', 'maxR': 'mx', 'fMin': 'fn', 'fMax': 'fx', 'midR': '(midR s)', 'fMid': '(fMid s)'})
-        mid = self.ops_expr(assign(w.body[1], 'midR'), lenv, attrs, funs)
-        lenv['midR'] = 'md'
-        fmid = self.ops_expr(assign(w.body[2], 'fMid'), lenv, attrs, funs)
-        if not _same(w.body[3], 'n += 1'):
-            raise TranslationError('_findRcrit: expected n += 1', w.body[3])
-        g = w.body[4]
-        ok = (isinstance(g, ast.If) and not g.orelse and len(g.body) == 1 and isinstance(g.body[0], ast.Return)
-              and isinstance(g.test, ast.Compare) and len(g.test.ops) == 1 and isinstance(g.test.ops[0], ast.Eq)
-              and isinstance(g.test.left, ast.Name) and g.test.left.id == 'n' and isinstance(g.test.comparators[0], ast.Constant)
-              and isinstance(g.test.comparators[0].value, int) and g.test.comparators[0].value >= 1)
-        if not ok:
-            raise TranslationError('_findRcrit: expected `if n == <N>: return ...` at the end of the loop body', g)
-        nmax = g.test.comparators[0].value
-        giveup = self.ops_expr(g.body[0].value, env0, attrs, funs)
-        if not (isinstance(body[8], ast.Return) and body[8].value is not None):
-            raise TranslationError('_findRcrit: expected a final return', body[8])
-        found = self.ops_expr(body[8].value, senv, attrs, funs)
+        dc, fn, body = self.method_body('ShapeFactor', '_findRcrit', KNOWN_SF)
+        rs, rmax = _params(fn, 2)
         R, M = _ident(rs), _ident(rmax)
-        lets = '\n'.join('  let %s0 := %s in' % (v, init[v]) for v in state)
+        ctx = SFCtx(self, {'tol': 'tol'}, {'thermoFactor': 'thermoFactor'})
+        ev = Evaluator(self, ctx, domain='O')
+        loops = [i for i, st in enumerate(body) if isinstance(st, (ast.While, ast.For))]
+        if len(loops) != 1:
+            raise TranslationError('_findRcrit must contain exactly one top-level loop', fn)
+        li = loops[0]
+        pre, loop, post = body[:li], body[li], body[li + 1:]
+        if getattr(loop, 'orelse', None):
+            raise TranslationError('_findRcrit: loop with else', loop)
+        # ---- before the loop: integer counters are kept apart
+        env = {rs: Val(('var', R)), rmax: Val(('var', M))}
+        counters = {}
+        pre_exec = []
+        for st in pre:
+            if (isinstance(st, ast.Assign) and len(st.targets) == 1 and isinstance(st.targets[0], ast.Name) and isinstance(st.value, ast.Constant)
+                    and isinstance(st.value.value, int) and not isinstance(st.value.value, bool)):
+                counters[st.targets[0].id] = st.value.value
+            else:
+                pre_exec.append(st)
+        if ev.block(pre_exec, env) is not None:
+            raise TranslationError('_findRcrit returns before the loop', fn)
+        init_env = dict(env)
+        pre_vars = [k for k in env if k not in (rs, rmax)]
+        for k in pre_vars:
+            if env[k].ty != 'R':
+                raise TranslationError('_findRcrit: %s is not a number before the loop' % k, fn)
+
+        def ret_ir(st, e):
+            if not (isinstance(st, ast.Return) and st.value is not None):
+                raise TranslationError('_findRcrit: expected a return', st)
+            v = ev.expr(st.value, e)
+            if v.ty != 'R':
+                raise TranslationError('_findRcrit returns something that is not a number', st)
+            return v.ir
+        # symbolic state at the head of an iteration: every pre-loop variable is an atom
+        state_env = {rs: Val(('var', R)), rmax: Val(('var', M))}
+        for k in pre_vars:
+            state_env[k] = Val(('var', '@' + k))
+        lbody = list(loop.body)
+        if isinstance(loop, ast.While):
+            cont = ev.cond(loop.test, state_env)
+            # ... ; n += 1 ; if n == N: return g      at the end of the body
+            if len(lbody) < 2:
+                raise TranslationError('_findRcrit: loop body too short', loop)
+            inc, guard = lbody[-2], lbody[-1]
+            cname = None
+            if isinstance(inc, ast.AugAssign) and isinstance(inc.target, ast.Name) and isinstance(inc.op, ast.Add) and isinstance(inc.value, ast.Constant) and inc.value.value == 1:
+                cname = inc.target.id
+            elif (isinstance(inc, ast.Assign) and len(inc.targets) == 1 and isinstance(inc.targets[0], ast.Name) and isinstance(inc.value, ast.BinOp)
+                  and isinstance(inc.value.op, ast.Add) and isinstance(inc.value.left, ast.Name) and inc.value.left.id == inc.targets[0].id
+                  and isinstance(inc.value.right, ast.Constant) and inc.value.right.value == 1):
+                cname = inc.targets[0].id
+            if cname is None or counters.get(cname) != 0:
+                raise TranslationError('_findRcrit: the loop body does not end with <counter> += 1; if <counter> == N: return ... (counter starting at 0)', inc)
+            ok = (isinstance(guard, ast.If) and not guard.orelse and len(guard.body) == 1 and isinstance(guard.test, ast.Compare) and len(guard.test.ops) == 1
+                  and isinstance(guard.test.ops[0], (ast.Eq, ast.GtE)) and isinstance(guard.test.left, ast.Name) and guard.test.left.id == cname
+                  and isinstance(guard.test.comparators[0], ast.Constant) and isinstance(guard.test.comparators[0].value, int)
+                  and not isinstance(guard.test.comparators[0].value, bool) and guard.test.comparators[0].value >= 1)
+            if not ok:
+                raise TranslationError('_findRcrit: expected `if <counter> == <N>: return ...` at the end of the loop body', guard)
+            nmax = guard.test.comparators[0].value
+            upd_stmts = lbody[:-2]
+            for st in upd_stmts + post:
+                for sub in ast.walk(st):
+                    if isinstance(sub, ast.Name) and sub.id == cname:
+                        raise TranslationError('_findRcrit: the iteration counter is used elsewhere', sub)
+            giveup_stmt, found_stmt = guard.body[0], (post[0] if len(post) == 1 else None)
+            if found_stmt is None:
+                raise TranslationError('_findRcrit: expected exactly one statement (the final return) after the loop', fn)
+        else:
+            it = loop.iter
+            ok = (isinstance(it, ast.Call) and isinstance(it.func, ast.Name) and it.func.id == 'range' and len(it.args) == 1 and not it.keywords
+                  and isinstance(it.args[0], ast.Constant) and isinstance(it.args[0].value, int) and not isinstance(it.args[0].value, bool) and it.args[0].value >= 1
+                  and isinstance(loop.target, ast.Name))
+            if not ok:
+                raise TranslationError('_findRcrit: for loop is not `for <name> in range(<N>)`', loop)
+            nmax = it.args[0].value
+            for st in lbody + post:
+                for sub in ast.walk(st):
+                    if isinstance(sub, ast.Name) and sub.id == loop.target.id:
+                        raise TranslationError('_findRcrit: the loop index is used', sub)
+            g0 = lbody[0] if lbody else None
+            if not (isinstance(g0, ast.If) and not g0.orelse and len(g0.body) == 1 and isinstance(g0.body[0], ast.Return)):
+                raise TranslationError('_findRcrit: the for body does not start with `if <exit test>: return ...`', loop)
+            cont = ('not', ev.cond(g0.test, state_env))
+            found_stmt, giveup_stmt = g0.body[0], (post[0] if len(post) == 1 else None)
+            if giveup_stmt is None:
+                raise TranslationError('_findRcrit: expected exactly one statement (the final return) after the loop', fn)
+            upd_stmts = lbody[1:]
+            if counters:
+                raise TranslationError('_findRcrit: unused integer variable before the loop', fn)
+        found = ret_ir(found_stmt, state_env)
+        giveup = ret_ir(giveup_stmt, {rs: Val(('var', R)), rmax: Val(('var', M))})
+        benv = dict(state_env)
+        if ev.block(upd_stmts, benv) is not None:
+            raise TranslationError('_findRcrit: return inside the update part of the loop body', loop)
+        for k in benv:
+            if k not in state_env:
+                raise TranslationError('_findRcrit: variable %s is first assigned inside the loop' % k, loop)
+            if benv[k].ty != 'R':
+                raise TranslationError('_findRcrit: %s is not a number' % k, loop)
+        upd = {k: benv[k].ir for k in pre_vars}
+        roles = self.roles(pre_vars, upd, cont, found)
+        # ---- emit
+        atom = {'@' + v: ('var', '(%s s)' % f) for f, v in roles.items()}
+        fields = ['minR', 'maxR', 'midR', 'fMin', 'fMax', 'fMid']
+        step = ' '.join(pr_O(subst_ir(upd[roles[f]], atom)) for f in fields)
+        init = ' '.join(pr_O(init_env[roles[f]].ir) for f in fields)
         txt = ('(* ShapeFactor._findRcrit (line %d), over the scalar record; self.thermoFactor and self.tol are parameters.\n'
-               '   Statement skeleton pinned by the translator, every expression / comparison / constant read from the source. *)\n'
+               '   Normal form of the loop: state fields <- source variables %s *)\n'
                'Section FindRcrit_gen.\nVariable O : Ops.\nVariable thermoFactor : T O -> T O.\nVariable %s : T O.\nVariable tol : T O.\n\n'
-               'Definition findRcrit_step_gen (s : bstate O) : bstate O :=\n'
-               '  let \'(mn, mx, fn, fx) :=\n    if %s\n    then %s\n    else %s in\n'
-               '  let md := %s in\n  mkB O mn mx md fn fx %s.\n\n'
+               'Definition findRcrit_step_gen (s : bstate O) : bstate O :=\n  mkB O %s.\n\n'
                'Definition findRcrit_continue_gen (s : bstate O) : bool := %s.\n'
                'Definition findRcrit_found_gen (s : bstate O) : T O := %s.\n'
                'Definition findRcrit_giveup_gen : T O := %s.\n'
                'Definition findRcrit_maxiter_gen : nat := %d%%nat.\n\n'
-               'Definition findRcrit_init_gen (%s : T O) : bstate O :=\n%s\n  mkB O minR0 maxR0 midR0 fMin0 fMax0 fMid0.\n\n'
-               '(* fuel = iterations that may still complete before n == %d *)\n'
+               'Definition findRcrit_init_gen (%s : T O) : bstate O :=\n  mkB O %s.\n\n'
+               '(* fuel = iterations that may still complete before the loop gives up *)\n'
                'Fixpoint findRcrit_loop_gen (fuel n : nat) (s : bstate O) : outcome O :=\n'
                '  if findRcrit_continue_gen s then\n    match fuel with\n    | 0%%nat => GaveUp O\n    | S k => findRcrit_loop_gen k (S n) (findRcrit_step_gen s)\n    end\n'
                '  else Found O (findRcrit_found_gen s) n.\n\n'
                'Definition findRcrit_gen (%s : T O) : outcome O :=\n  findRcrit_loop_gen (pred findRcrit_maxiter_gen) 0%%nat (findRcrit_init_gen %s).\n'
                'Definition findRcrit_value_gen (%s : T O) : T O :=\n  match findRcrit_gen %s with Found _ r _ => r | GaveUp _ => findRcrit_giveup_gen end.\n'
                'End FindRcrit_gen.'
-               % (fn.lineno, R, brtest, b_then, b_else, mid, fmid, cond, found, giveup, nmax, M, lets, nmax, M, M, M, M))
+               % (fn.lineno, ', '.join('%s <- %s' % (f, roles[f]) for f in fields), R, step, pr_cond_O(subst_ir(cont, atom)),
+                  pr_O(subst_ir(found, atom)), pr_O(giveup), nmax, M, init, M, M, M, M))
         self.maxiter = nmax
         self.emit('findRcrit_gen', txt)
         self.names += ['findRcrit_step_gen', 'findRcrit_continue_gen', 'findRcrit_found_gen', 'findRcrit_giveup_gen',
                        'findRcrit_maxiter_gen', 'findRcrit_init_gen', 'findRcrit_loop_gen', 'findRcrit_value_gen']
+
+    @staticmethod
+    def roles(pre_vars, upd, cont, found):
+        """which source variable plays which field of the model's state: any bijection gives a faithful text, only the
+        right one makes the bridge lemmas hold, so this is a heuristic that cannot make the check unsound"""
+        if len(pre_vars) != 6:
+            raise TranslationError('_findRcrit carries %d variables through the loop (%s); the model has six' % (len(pre_vars), ', '.join(pre_vars)))
+
+        def atoms(ir, acc):
+            if isinstance(ir, tuple):
+                if ir[0] == 'var' and ir[1].startswith('@'):
+                    acc.add(ir[1][1:])
+                elif ir[0] == 'app':
+                    for a in ir[2]:
+                        atoms(a, acc)
+                else:
+                    for x in ir:
+                        atoms(x, acc)
+            return acc
+        roles = {}
+        ca = atoms(cont, set())
+        if len(ca) == 1:
+            roles['fMid'] = next(iter(ca))
+        if found[0] == 'var' and found[1].startswith('@'):
+            roles['midR'] = found[1][1:]
+        mid, fmid = roles.get('midR'), roles.get('fMid')
+        for v in pre_vars:
+            u = upd[v]
+            if v in roles.values() or u[0] != 'ite':
+                continue
+            t, e = u[2], u[3]
+            me = ('var', '@' + v)
+            if mid and t == ('var', '@' + mid) and e == me:
+                roles.setdefault('minR', v)
+            elif mid and e == ('var', '@' + mid) and t == me:
+                roles.setdefault('maxR', v)
+            elif fmid and t == ('var', '@' + fmid) and e == me:
+                roles.setdefault('fMin', v)
+            elif fmid and e == ('var', '@' + fmid) and t == me:
+                roles.setdefault('fMax', v)
+        # whatever could not be recognised is filled in order of first assignment
+        rest = [v for v in pre_vars if v not in roles.values()]
+        for f in ['minR', 'maxR', 'midR', 'fMin', 'fMax', 'fMid']:
+            if f not in roles:
+                roles[f] = rest.pop(0)
+        if len(set(roles.values())) != 6:
+            raise TranslationError('_findRcrit: could not map the loop variables onto the state')
+        return roles
+
+    # ---- module level -----------------------------------------------------------------------
+    def module_level(self):
+        for sub in ast.walk(self.mod):
+            if isinstance(sub, (ast.Global, ast.Nonlocal)):
+                raise TranslationError('global / nonlocal statement', sub)
+        assigned = {}
+        for st in self.mod.body:
+            if isinstance(st, ast.ClassDef) or (isinstance(st, ast.Expr) and isinstance(st.value, ast.Constant)):
+                continue
+            if isinstance(st, ast.Import) and [(a.name, a.asname) for a in st.names] == [('numpy', 'np')]:
+                continue
+            if isinstance(st, ast.Assign) and len(st.targets) == 1 and isinstance(st.targets[0], ast.Name):
+                n = st.targets[0].id
+                if n in assigned or n in ('np',) or n in self.C.cls:
+                    raise TranslationError('module-level name %s is assigned twice / shadows a class' % n, st)
+
+                class NoSelf:
+                    def self_attr(s, name):
+                        return None
+
+                    def call(s, f, args, e):
+                        return None
+                v = Evaluator(self, NoSelf()).expr(st.value, {})
+                if v.ty != 'R':
+                    raise TranslationError('module-level constant %s is not a number' % n, st)
+                assigned[n] = st
+                gname = 'const_%s_gen' % n.strip('_')
+                self.emit(gname, '(* module-level constant %s (line %d) *)\nDefinition %s : R := %s.' % (n, st.lineno, gname, pr_R(v.ir)))
+                self.modconst[n] = ('var', gname)
+                continue
+            raise TranslationError('unexpected module-level statement', st)
+        # a constant must not be rebound inside a function either
+        for sub in ast.walk(self.mod):
+            if isinstance(sub, (ast.FunctionDef, ast.Lambda)):
+                for x in ast.walk(sub):
+                    if isinstance(x, ast.Name) and isinstance(x.ctx, (ast.Store, ast.Del)) and x.id in assigned:
+                        raise TranslationError('module-level constant %s is shadowed / rebound in a function' % x.id, x)
+                if isinstance(sub, ast.FunctionDef):
+                    for a in sub.args.args:
+                        if a.arg in assigned:
+                            raise TranslationError('module-level constant %s is shadowed by a parameter' % a.arg, sub)
 
     def run(self):
         for _, cname in DESCRIPTIONS:
@@ -645,15 +1104,9 @@ class Translator:
                 raise TranslationError('class %s derives from %s, expected %s' % (cname, self.C.cls[cname][1], BASE))
         if BASE not in self.C.cls or self.C.cls[BASE][1] is not None:
             raise TranslationError('class %s missing or derived' % BASE)
-        # module-level statements other than imports / classes / docstring could rebind anything
-        for st in self.mod.body:
-            if isinstance(st, ast.ClassDef) or (isinstance(st, ast.Expr) and isinstance(st.value, ast.Constant)):
-                continue
-            if isinstance(st, ast.Import) and [(a.name, a.asname) for a in st.names] == [('numpy', 'np')]:
-                continue
-            raise TranslationError('unexpected module-level statement', st)
+        self.out.append('(* ---- module level ---- *)')
+        self.module_level()
         self.out.append('(* ---- %s: wrappers ---- *)' % BASE)
-        self.process_aspect_ratio()
         self.wrappers()
         for short, cname in DESCRIPTIONS:
             self.out.append('(* ---- %s ---- *)' % cname)
@@ -663,7 +1116,7 @@ class Translator:
         skip = {'findRcrit_gen', 'findRcrit_step_gen', 'findRcrit_continue_gen', 'findRcrit_found_gen', 'findRcrit_giveup_gen',
                 'findRcrit_maxiter_gen', 'findRcrit_init_gen', 'findRcrit_loop_gen', 'findRcrit_value_gen',
                 'processAspectRatio_inplace_gen', 'setAspectRatio_dispatch_gen'}
-        self.out.append('(* for the pointwise enclosures of the check *)\nLtac gen_unfold :=\n  repeat progress unfold %s.'
+        self.out.append('(* for the pointwise enclosures of the check and the bridge *)\nLtac gen_unfold :=\n  repeat progress unfold %s.'
                         % ',\n    '.join(n for n in self.names if n not in skip))
         header = ('(* GENERATED on every run by harness/c15_translate.py from kawin/precipitation/parameters/ShapeFactors.py.\n'
                   '   Do not edit. *)\nFrom Coq Require Import Reals List Bool ZArith.\nRequire Import Kawin.Common.Ops Kawin.Common.Vec Kawin.C15.Model.\n'
